@@ -123,6 +123,9 @@ class PersistentRemoteWorker(PersistentWorker, RemoteWorker):
                     pass
                 break
 
+        if not last_partial_result_signalled:
+            # the final result arrived without the end-of-results message (e.g. the server had to kill the child)
+            self._results_pipe.child_end.put((counter, False, None, self.id))
         self._results_pipe.child_end.close()
 
     # Do not transfer results queue over network
@@ -199,7 +202,7 @@ class PersistentRemoteWorker(PersistentWorker, RemoteWorker):
 
     def _cleanup(self):
         try:
-            send_msg(self._socket, (self._counter, False, None, self.id))
+            send_msg(self._socket, (getattr(self, '_counter', 0), False, None, self.id))
         except ConnectionClosedError:
             pass
 
